@@ -275,6 +275,7 @@ public:
 #if !(FASTOR_NO_ALIAS)
         if (_does_alias) {
             _does_alias = false;
+            FASTOR_VERIF_ROUTE("view.alias_copy.tensor_fixed_views_nd");
             // Evaluate this into a temporary
             auto tmp_this_tensor = get_tensor();
             auto tmp = TensorFixedViewExprnD<Tensor<T,Rest...>,Fseqs...>(tmp_this_tensor);
@@ -364,6 +365,7 @@ public:
 #if !(FASTOR_NO_ALIAS)
         if (_does_alias) {
             _does_alias = false;
+            FASTOR_VERIF_ROUTE("view.alias_copy.tensor_fixed_views_nd");
             // Evaluate this into a temporary
             auto tmp_this_tensor = get_tensor();
             auto tmp = TensorFixedViewExprnD<Tensor<T,Rest...>,Fseqs...>(tmp_this_tensor);
@@ -480,6 +482,7 @@ public:
 #if !(FASTOR_NO_ALIAS)
         if (_does_alias) {
             _does_alias = false;
+            FASTOR_VERIF_ROUTE("view.alias_copy.tensor_fixed_views_nd");
             // Evaluate this into a temporary
             auto tmp_this_tensor = get_tensor();
             auto tmp = TensorFixedViewExprnD<Tensor<T,Rest...>,Fseqs...>(tmp_this_tensor);
@@ -561,6 +564,7 @@ public:
 #if !(FASTOR_NO_ALIAS)
         if (_does_alias) {
             _does_alias = false;
+            FASTOR_VERIF_ROUTE("view.alias_copy.tensor_fixed_views_nd");
             // Evaluate this into a temporary
             auto tmp_this_tensor = get_tensor();
             auto tmp = TensorFixedViewExprnD<Tensor<T,Rest...>,Fseqs...>(tmp_this_tensor);
@@ -641,6 +645,7 @@ public:
 #if !(FASTOR_NO_ALIAS)
         if (_does_alias) {
             _does_alias = false;
+            FASTOR_VERIF_ROUTE("view.alias_copy.tensor_fixed_views_nd");
             // Evaluate this into a temporary
             auto tmp_this_tensor = get_tensor();
             auto tmp = TensorFixedViewExprnD<Tensor<T,Rest...>,Fseqs...>(tmp_this_tensor);
@@ -721,6 +726,7 @@ public:
 #if !(FASTOR_NO_ALIAS)
         if (_does_alias) {
             _does_alias = false;
+            FASTOR_VERIF_ROUTE("view.alias_copy.tensor_fixed_views_nd");
             // Evaluate this into a temporary
             auto tmp_this_tensor = get_tensor();
             auto tmp = TensorFixedViewExprnD<Tensor<T,Rest...>,Fseqs...>(tmp_this_tensor);
@@ -805,6 +811,7 @@ public:
 #if !(FASTOR_NO_ALIAS)
         if (_does_alias) {
             _does_alias = false;
+            FASTOR_VERIF_ROUTE("view.alias_copy.tensor_fixed_views_nd");
             // Evaluate this into a temporary
             auto tmp_this_tensor = get_tensor();
             auto tmp = TensorFixedViewExprnD<Tensor<T,Rest...>,Fseqs...>(tmp_this_tensor);
@@ -882,6 +889,7 @@ public:
 #if !(FASTOR_NO_ALIAS)
         if (_does_alias) {
             _does_alias = false;
+            FASTOR_VERIF_ROUTE("view.alias_copy.tensor_fixed_views_nd");
             // Evaluate this into a temporary
             auto tmp_this_tensor = get_tensor();
             auto tmp = TensorFixedViewExprnD<Tensor<T,Rest...>,Fseqs...>(tmp_this_tensor);
@@ -962,6 +970,7 @@ public:
 #if !(FASTOR_NO_ALIAS)
         if (_does_alias) {
             _does_alias = false;
+            FASTOR_VERIF_ROUTE("view.alias_copy.tensor_fixed_views_nd");
             // Evaluate this into a temporary
             auto tmp_this_tensor = get_tensor();
             auto tmp = TensorFixedViewExprnD<Tensor<T,Rest...>,Fseqs...>(tmp_this_tensor);
@@ -1041,6 +1050,7 @@ public:
 #if !(FASTOR_NO_ALIAS)
         if (_does_alias) {
             _does_alias = false;
+            FASTOR_VERIF_ROUTE("view.alias_copy.tensor_fixed_views_nd");
             // Evaluate this into a temporary
             auto tmp_this_tensor = get_tensor();
             auto tmp = TensorFixedViewExprnD<Tensor<T,Rest...>,Fseqs...>(tmp_this_tensor);
@@ -1121,6 +1131,7 @@ public:
 #if !(FASTOR_NO_ALIAS)
         if (_does_alias) {
             _does_alias = false;
+            FASTOR_VERIF_ROUTE("view.alias_copy.tensor_fixed_views_nd");
             // Evaluate this into a temporary
             auto tmp_this_tensor = get_tensor();
             auto tmp = TensorFixedViewExprnD<Tensor<T,Rest...>,Fseqs...>(tmp_this_tensor);
